@@ -34,10 +34,10 @@ TRUSTED = [
 ASSUMPTIONS = [
     "single-fault sweep: exactly one native call of the method raises (sticky only for the Windows ERROR_PARTIAL_COPY retry loop); two-fault sequences: a second, later call raises after the method went on; records hold a distinct value in every slot",
     "front-end name(): ASCII names only (len(os.fsencode(name)) = number of characters); front-end cases run over a scripted platform object (_proc) behind the real psutil.Process",
-    "Python-level os.path.exists/islink/isfile/os.access never raise and are not faulted; subprocess-based helpers (pfiles, procfiles, swap -l, lsdev, entstat) are outside the model",
+    "os.path.exists/isfile/islink = ONE stat()/lstat() whose OSError is swallowed and answered False (genericpath / posixpath), faulted as such; os.access never fails and is not faulted; empty native answers: one per-process list / dict / str answer (or a random subset of them) comes back empty, other degenerate shapes (None, truncated tuples) are not generated; subprocess-based helpers (pfiles, procfiles, swap -l, lsdev, entstat) are outside the model",
 ]
 MANIFEST = {
-    "level_text": "Machine-checked Lean 4 proofs over a model of the five non-Linux platform modules and the front end's platform-conditional post-processing: C20_error_contract_partial (for every platform module, every errno in {ESRCH, ENOENT, EPERM, EACCES, EIO, EINVAL}, every winerror, every pid and every REAL pid state — gone / zombie / alive, not what the module's probe can tell — outside the region Spec.knownZombieDeviation, the decorator built from the translator's except-clause table produces exactly the cell of the contract table; full strength on BSD / macOS / Windows: C20_error_contract_bsd_osx_windows; the full statement C20_error_contract_Full is REFUTED for Solaris / AIX by C20_error_contract_counterexample and the code's behaviour in the region is characterised exactly by C20_error_contract_deviation: ZombieProcess where the cell is NoSuchProcess — finding C20-sunos-aix-exists-means-zombie), corollary C20_error_contract_methods, C20_all_methods_wrapped (every undecorated method justified one by one, helpers only reachable from decorated methods), C20_inner_handlers_transcribed, C20_method_faults_within_spec_partial (every native call of every method × error × pid state: outcome within the specification's allowed set or, on Solaris / AIX only, the one known zombie deviation in its region; by decide over the generated traces; no call site excluded, for the code as it is — obligations cfg_win_ppid_wrapped and cfg_win_maps_loop_guarded; strict full strength on the BSDs, macOS and Windows: C20_method_faults_within_spec_bsd_osx_windows; the strict statement C20_method_faults_within_spec_Full is refuted by C20_method_faults_not_full; counterexamples kept for the unrepaired Windows configuration), C20_zombie_codes_documented / C20_zombie_probe_sees_documented_codes / C20_error_contract_status_codes (the contract in terms of the native status code of the probe record: is_zombie's comparison, a translator fact, says zombie for exactly the codes the platform documents — OpenBSD SDEAD and SZOMB), C20_two_faults_within_spec (same tolerance; two-fault sequences: for every generated row of first faults after which a method goes on — alternative path after an inner handler, or re-run by the partial-copy retry — every later native call × second error × pid state is within the specification; any first error), C20_two_faults_first_ends, C20_slot_maps_match_native, C20_slots_match, C20_all_record_reads_named (every read of a native one-shot record on any path is a named-slot read), C20_fallback_slots_match (the slot reads on except-handler paths are exactly the documented fall-backs), C20_ntuple_types, C20_win_pmem_layout (decide over generated tables), C20_api_names (documented ⊆ exposed per platform), C20_mac_padding, C20_broadcast_takes_effect and C20_broadcast6_takes_effect (IPv4 on 32 bits and IPv6 on 128 bits against bit-level specifications; post-processing takes effect; counterexample for the pre-fix front end), C20_front_branches_classified (every platform-conditional branch inside a function or class of the front end is on a classified list) with C20_front_ppid / _name / _username / _pid_exists / _affinity_all_cpus / _disk_io_kwargs for the ones that transform a value. Tie: translator (except clauses, decorators, slot maps, feeds, record reads, fall-back reads, single- and two-fault traces, front-end branches, C comments, docs) + a differential run of the REAL platform modules and front end under platform emulation over a scripted native layer (full single-fault sweep; two-fault sequences: sampled at the quick tier, the whole domain at the thorough tier). Round 2/3: C20_native_slot_order (at full strength for the code as it is: slot i of every slot map = i-th argument of the parsed Py_BuildValue call of the C function and that argument is the struct member the slot is NAMED FOR — reviewed table of INTENDED members; the positional native tuples too; stub record lengths; every slot, since /repo c9c8f6b repaired the BSD saved_gid slot that was fed from the saved UID member — defect C20-bsd-saved-gid, fixed; C20_saved_gid_is_not_saved_uid names the slot, C20_native_slot_order_partial is kept for a tree without the repair); C20_api_fields (every namedtuple field docs/index.rst documents for a platform — bullets with platform notes, per-platform table columns in order — is a field of that platform's namedtuple; six Solaris/AIX gaps listed and kept exact by C20_api_fields_gaps_characterisation); C20_front_ident_partial (+ _bsd_osx_windows full, _counterexample_sunos) / _ident_fast_only / cfg_ident_fast_only (Process(pid): Windows identity uses create_time(fast_only=True), AccessDenied → (pid, None)), C20_front_eq (Open/NetBSD zombie equality, all identities), C20_front_send_signal_posix (OpenBSD zombie branch), C20_front_send_signal_windows (+ _contract): all driven on the REAL front end over the REAL platform module under each emulated identity.",
+    "level_text": "Machine-checked Lean 4 proofs over a model of the five non-Linux platform modules and the front end's platform-conditional post-processing: C20_error_contract_partial (for every platform module, every errno in {ESRCH, ENOENT, EPERM, EACCES, EIO, EINVAL}, every winerror, every pid and every REAL pid state — gone / zombie / alive, not what the module's probe can tell — outside the region Spec.knownZombieDeviation, the decorator built from the translator's except-clause table produces exactly the cell of the contract table; full strength on BSD / macOS / Windows: C20_error_contract_bsd_osx_windows; the full statement C20_error_contract_Full is REFUTED for Solaris / AIX by C20_error_contract_counterexample and the code's behaviour in the region is characterised exactly by C20_error_contract_deviation: ZombieProcess where the cell is NoSuchProcess — finding C20-sunos-aix-exists-means-zombie), corollary C20_error_contract_methods, C20_all_methods_wrapped (every undecorated method justified one by one, helpers only reachable from decorated methods), C20_inner_handlers_transcribed, C20_method_faults_within_spec_partial (every native call of every method × error × pid state: outcome within the specification's allowed set or, on Solaris / AIX only, the one known zombie deviation in its region; by decide over the generated traces; no call site excluded, for the code as it is — obligations cfg_win_ppid_wrapped and cfg_win_maps_loop_guarded; strict full strength on the BSDs, macOS and Windows: C20_method_faults_within_spec_bsd_osx_windows; the strict statement C20_method_faults_within_spec_Full is refuted by C20_method_faults_not_full; counterexamples kept for the unrepaired Windows configuration), C20_zombie_codes_documented / C20_zombie_probe_sees_documented_codes / C20_error_contract_status_codes (the contract in terms of the native status code of the probe record: is_zombie's comparison, a translator fact, says zombie for exactly the codes the platform documents — OpenBSD SDEAD and SZOMB), C20_two_faults_within_spec (same tolerance; two-fault sequences: for every generated row of first faults after which a method goes on — alternative path after an inner handler, or re-run by the partial-copy retry — every later native call × second error × pid state is within the specification; any first error), C20_two_faults_first_ends, C20_empty_answer_faults_within_spec_partial (seeded round 5 — the native ANSWER is a dimension: for every method × native call whose list / dict / str answer about the process can come back EMPTY, rows of the translator fact tracesEmpty, every native call the method makes on THAT run — the Solaris / AIX 'is the process still there?' re-checks behind `if not ret:` are reached this way only — × error × pid state is within the specification, same tolerance; strict on BSD / macOS / Windows: C20_empty_answer_faults_bsd_osx_windows; C20_empty_answer_faults_not_full), C20_path_probes_transcribed + C20_path_probe_faults_within_spec (os.path.exists / isfile / islink are a stat() whose failure the caller never sees: the (identity, method, question) triples of ALL generated call sequences are exactly the transcribed ones, and a failing stat there leaves the method inside the specification — an OS query moved behind such a yes/no question is noticed), C20_slot_maps_match_native, C20_slots_match, C20_all_record_reads_named (every read of a native one-shot record on any path is a named-slot read), C20_fallback_slots_match (the slot reads on except-handler paths are exactly the documented fall-backs), C20_ntuple_types, C20_win_pmem_layout (decide over generated tables), C20_api_names (documented ⊆ exposed per platform), C20_mac_padding, C20_broadcast_takes_effect and C20_broadcast6_takes_effect (IPv4 on 32 bits and IPv6 on 128 bits against bit-level specifications; post-processing takes effect; counterexample for the pre-fix front end), C20_front_branches_classified (every platform-conditional branch inside a function or class of the front end is on a classified list) with C20_front_ppid / _name / _username / _pid_exists / _affinity_all_cpus / _disk_io_kwargs for the ones that transform a value. Tie: translator (except clauses, decorators, slot maps, feeds, record reads, fall-back reads, single- and two-fault traces, front-end branches, C comments, docs) + a differential run of the REAL platform modules and front end under platform emulation over a scripted native layer (full single-fault sweep, os.path questions included as fault points; two-fault sequences: sampled at the quick tier, the whole domain at the thorough tier; empty-answer family: every emptied run with a different call sequence × every call × every error × state exhaustively, random subsets of empty answers with a random fault). Round 2/3: C20_native_slot_order (at full strength for the code as it is: slot i of every slot map = i-th argument of the parsed Py_BuildValue call of the C function and that argument is the struct member the slot is NAMED FOR — reviewed table of INTENDED members; the positional native tuples too; stub record lengths; every slot, since /repo c9c8f6b repaired the BSD saved_gid slot that was fed from the saved UID member — defect C20-bsd-saved-gid, fixed; C20_saved_gid_is_not_saved_uid names the slot, C20_native_slot_order_partial is kept for a tree without the repair); C20_api_fields (every namedtuple field docs/index.rst documents for a platform — bullets with platform notes, per-platform table columns in order — is a field of that platform's namedtuple; six Solaris/AIX gaps listed and kept exact by C20_api_fields_gaps_characterisation); C20_front_ident_partial (+ _bsd_osx_windows full, _counterexample_sunos) / _ident_fast_only / cfg_ident_fast_only (Process(pid): Windows identity uses create_time(fast_only=True), AccessDenied → (pid, None)), C20_front_eq (Open/NetBSD zombie equality, all identities), C20_front_send_signal_posix (OpenBSD zombie branch), C20_front_send_signal_windows (+ _contract): all driven on the REAL front end over the REAL platform module under each emulated identity.",
     "level_note": "Trusted: Lean kernel + {propext, Classical.choice, Quot.sound}; the translator; the emulation layer (stub natives, scripted os); CPython's errno→exception map. Not executed: the native C layers of the other OSes. Partial: one open finding — C20-sunos-aix-exists-means-zombie (Solaris / AIX report ZombieProcess for a process that merely still exists; theorems _partial with the region excluded and characterised); two-fault sequences start from first faults after which the method still returns (the decorator's os.kill probe is faulted with EPERM only); the Windows partial-copy retry loop is a closed form, not a recursive loop; Spec.recoverable / Model.inner are keyed by the same (method, call) table (characterisation of the handlers, tied by the differential run); every public method's returned value is compared with an expected value (per-item tuples by hand from the native item layout; scalars a reviewed literal); every platform-conditional front-end branch that transforms a value is now modelled (round 2: _get_ident, __eq__, _send_signal, send_signal); documented FIELDS: six Solaris/AIX gaps (nice, active, inactive marked *(UNIX)* in the docs) are characterised, not findings (the statement promises function and constant names); the native C code is parsed, not compiled.",
     "technique": "Lean 4 case analysis + decide over translator-generated tables (Python AST, parsed C Py_BuildValue calls, docs); platform emulation with scripted native layer for the differential correspondence",
     "design_ref": "DESIGN.md §5 C20",
@@ -47,7 +47,10 @@ ERRNOS = [("ESRCH", errno.ESRCH), ("ENOENT", errno.ENOENT), ("EPERM", errno.EPER
           ("EACCES", errno.EACCES), ("EIO", errno.EIO), ("EINVAL", errno.EINVAL)]
 ERRNO_NAME = {v: k for k, v in ERRNOS}
 WIN_CODES = [0, E.ERROR_ACCESS_DENIED, E.ERROR_PRIVILEGE_NOT_HELD, E.ERROR_PARTIAL_COPY, E.ERROR_INVALID_PARAMETER]
-NO_FAULT = {"os.path.exists", "os.path.islink", "os.path.isfile", "os.access"}
+# never faulted: os.access() answers False for any failure by definition (it is the yes/no syscall itself). The
+# os.path.exists/isfile/islink questions ARE faulted since seeded round 5: the stat() inside fails, the question
+# answers False (c20_emul.PATH_PROBES)
+NO_FAULT = {"os.access"}
 PIDS = [42, 0]
 RETRY_TOTAL_S = (0.5, 2.0)     # retry_error_partial_copy: "retries for roughly 1 second" (comment in _pswindows.py)
 
@@ -77,7 +80,8 @@ def _traces(emu):
 # calls that only answer "does the pid exist / is it a zombie" once the method has gone on after a first fault
 # (the pid state of the case already says what they answer): not second-fault points
 PROBE_CALLS = {"bsd": {"proc_oneshot_info", "os.kill", "pids", "proc_name"}, "osx": set(),
-               "sunos": {"os.kill", "os.stat", "os.listdir", "pids"}, "aix": {"os.kill", "os.stat", "os.listdir", "pids"}, "windows": set()}
+               "sunos": {"os.kill", "os.stat", "os.listdir", "pids"},
+               "aix": {"os.kill", "os.stat", "os.listdir", "pids", "os.path.exists"}, "windows": set()}
 
 
 def swept_errs(emu):
@@ -113,6 +117,24 @@ def _traces2(emu):
                     row = (m, pid, call1, mode, [c for _, c in continuation(emu, tr, k1)])
                     if row not in rows:
                         rows.append(row)
+    return rows
+
+
+def empty_rows(emu, pids=PIDS):
+    """The empty-answer dimension. For every public method × pid × native call of its no-fault run that is a question
+    about THIS process and answers a non-empty list / dict / str: the same run with that answer handed back EMPTY (the
+    native call succeeds; it found nothing) → (method, pid, emptied call, base trace, trace, observable)."""
+    cache = getattr(emu, "_c20_empty_rows", None)
+    if cache is not None and cache[0] == tuple(pids):
+        return cache[1]
+    rows = []
+    for m in emu.process_methods():
+        for pid in pids:
+            obs0, tr0, ans = emu.run(m, pid=pid, with_answers=True)
+            for name in dict.fromkeys(a[0] for a in ans if a[1] and a[2]):
+                obs, tr = emu.run(m, pid=pid, empty=[name])
+                rows.append((m, pid, name, list(tr0), list(tr), obs))
+    emu._c20_empty_rows = (tuple(pids), rows)
     return rows
 
 
@@ -234,6 +256,19 @@ def facts(snap, F):
         return "[" + ", ".join(rows) + "]"
     F.try_add("traces", "List (String × List (String × Nat × List String))", lean_traces,
               "per platform identity: native calls made by Process(pid).<method>() over the scripted native layer (no fault)")
+
+    def lean_traces_empty():
+        rows = []
+        for ident in E.IDENTS:
+            tr = [(m, pid, name, t) for m, pid, name, t0, t, _ in empty_rows(emus[ident]) if t != t0]
+            rows.append(T.lpair(lean_str(ident), lean_list(
+                tr, lambda t: "(%s, %d, %s, %s)" % (lean_str(t[0]), t[1], lean_str(t[2]), T.lstr_list(t[3])))))
+        return "[" + ", ".join(rows) + "]"
+    F.try_add("tracesEmpty", "List (String × List (String × Nat × String × List String))", lean_traces_empty,
+              "per platform identity: (method, pid, native call whose answer about the process comes back EMPTY, native calls "
+              "of that no-fault run) for every per-process list / dict / str answer of every method — only the runs whose "
+              "call sequence differs from the plain one (the others make the calls of `traces`): the code behind "
+              "`if not ret:` (is the process still there?) is reached this way only")
 
     def lean_traces2():
         rows = []
@@ -562,7 +597,7 @@ def run_fault(emu, c, with_trace=False):
         kw = {"fault2_at": c["probe_eperm"], "err2": (errno.EPERM, None)}
     obs, tr = emu.run(c["meth"], pid=c["pid"], fault_at=c["k"], err=(eno, c["winerror"]), state=c["state"],
                       pid0_listed=c["pid0"], sticky=c.get("sticky", False), name=CACHED_NAME, ppid=CACHED_PPID,
-                      zcode=c.get("zcode"), **kw)
+                      zcode=c.get("zcode"), empty=c.get("empty") or (), **kw)
     out = impl_outcome(obs)
     out["sleeps"] = obs.get("sleeps", 0)
     if "slept" in obs:
@@ -572,6 +607,72 @@ def run_fault(emu, c, with_trace=False):
     elif c.get("kind") == "fault2" and (len(tr) <= c["k2"] or tr[c["k2"]] != c["call2"]):
         out = {"k": "trace-drift", "trace": tr[:8]}
     return (out, tr) if with_trace else out
+
+
+def _fault_points(emu, meth, pid, tr, empty, extra=None):
+    """every swept fault at every faultable call of one (emptied) run"""
+    for k, call in enumerate(tr):
+        if call in NO_FAULT:
+            continue
+        for ename, eno, win in swept_errs(emu):
+            for state, zcode in world_states(emu):
+                for pid0 in ((True, False) if pid == 0 else (True,)):
+                    yield dict({"kind": "fault", "ident": emu.ident, "meth": meth, "pid": pid, "k": k, "call": call,
+                                "errno": ename, "winerror": win, "state": state, "zcode": zcode, "pid0": pid0,
+                                "sticky": False, "empty": list(empty)}, **(extra or {}))
+
+
+def empty_answer_cases(emu, tier, rng, n_random):
+    """The empty-answer family (seeded round 5): a native call SUCCEEDS but its answer about the process is empty,
+    then a native call of THAT run fails.
+      structured  — every emptied run whose call sequence differs from the plain one (it reaches code the plain run
+                    does not: the liveness re-checks, or stops early), no fault: the method must return;
+      exhaustive  — × every faultable call of that run × every swept error × pid state × pid-0 listing;
+      random      — a random NON-EMPTY SUBSET of the emptiable answers of a random (method, pid) at once, a random
+                    call of that run, a random swept error / state (covers the runs with the plain call sequence and
+                    several empty answers together)."""
+    pids = PIDS if tier == "quick" else PIDS + [1, 2, 4]
+    rows = empty_rows(emu, pids)
+    for m, pid, name, tr0, tr, obs in rows:
+        if tr != tr0:
+            yield {"kind": "emptyrun", "ident": emu.ident, "meth": m, "pid": pid, "empty": [name], "part": "structured"}
+            for c in _fault_points(emu, m, pid, tr, [name], {"part": "exhaustive"}):
+                yield c
+    by_mp = {}
+    for m, pid, name, tr0, tr, obs in rows:
+        by_mp.setdefault((m, pid), []).append(name)
+    keys = sorted(by_mp)
+    errs, states = swept_errs(emu), world_states(emu)
+    for _ in range(n_random if keys else 0):
+        m, pid = keys[rng.randrange(len(keys))]
+        names = by_mp[(m, pid)]
+        sub = [n for n in names if rng.random() < 0.6] or [names[rng.randrange(len(names))]]
+        obs, tr = emu.run(m, pid=pid, empty=sub)
+        ks = [k for k, call in enumerate(tr) if call not in NO_FAULT]
+        if not ks:
+            continue
+        k = ks[rng.randrange(len(ks))]
+        ename, eno, win = errs[rng.randrange(len(errs))]
+        state, zcode = states[rng.randrange(len(states))]
+        yield {"kind": "fault", "ident": emu.ident, "meth": m, "pid": pid, "k": k, "call": tr[k], "errno": ename,
+               "winerror": win, "state": state, "zcode": zcode, "pid0": (rng.random() < 0.5) if pid == 0 else True,
+               "sticky": False, "empty": sorted(sub), "part": "random"}
+
+
+def run_emptyrun(emu, c):
+    obs, tr = emu.run(c["meth"], pid=c["pid"], empty=c["empty"], name=CACHED_NAME, ppid=CACHED_PPID)
+    return obs
+
+
+def judge_emptyrun(emu, c, obs, res):
+    """an empty answer is not an OS failure: nothing for the error contract to translate, the method returns (the
+    collection it builds from the answer is then empty — compared with the plain run's type only)"""
+    if obs.get("kind") != "value":
+        res.disagree("spec", c, obs, None, {"kind": "value"},
+                     note="%s.Process(%d).%s(): the native call(s) %s succeed with an EMPTY answer and nothing fails — the method must "
+                     "return, not raise" % (c["ident"], c["pid"], c["meth"], ", ".join(c["empty"])))
+        return True
+    return False
 
 
 def probe_eperm_cases(emu, cases):
@@ -674,12 +775,16 @@ def judge_fault(c, impl, m, res):
             res.known_seen[region] = res.known_seen.get(region, 0) + 1
             return False
         second = ""
+        if c.get("empty"):
+            second = " [the native call(s) %s had SUCCEEDED with an empty answer]" % ", ".join(c["empty"])
         if c.get("kind") == "fault2":
-            second = " (the method goes on), then native call #%d %s raises %s(winerror=%s)" % (
+            second += " (the method goes on), then native call #%d %s raises %s(winerror=%s)" % (
                 c["k2"], c["call2"], c["errno2"], c["winerror2"])
         res.disagree("spec", c, impl, mo, {"cell": m["spec"]["cell"], "allowed": allowed},
-                     note="%s.Process(%d).%s(): native call #%d %s raises %s(winerror=%s)%s, pid then %s: outcome outside the specification"
-                     % (c["ident"], c["pid"], c["meth"], c["k"], c["call"], c["errno"], c["winerror"], second,
+                     note="%s.Process(%d).%s(): native call #%d %s %s %s(winerror=%s)%s, pid then %s: outcome outside the specification"
+                     % (c["ident"], c["pid"], c["meth"], c["k"], c["call"],
+                        "answers False because the stat() inside it fails with" if c["call"] in E.PATH_PROBES else "raises",
+                        c["errno"], c["winerror"], second,
                    c["state"] + ("" if not c.get("zcode") else " (status slot = %s)" % c["zcode"])))
         return True
     if c.get("sticky") and impl.get("k") == "ad" and m["model"]["sleeps"] > 0 and impl.get("sleeps") != m["spec"]["retries"]:
@@ -1467,6 +1572,8 @@ def judge_front2(emu, c, obs, m, res):
                 and any(g == front2_expect(emu, c, t, which) for t in m.get("tolerated", [])):
             res.known_seen[ZOMBIE_FINDING] = res.known_seen.get(ZOMBIE_FINDING, 0) + 1
             continue
+        if which == "spec" and c["fn"] == "ident" and g != want and any(g == front2_expect(emu, c, t, which) for t in m.get("also", [])):
+            continue        # a documented recoverable place of the creation-time query (Spec.initAlso), not gated by a finding
         if c["fn"] == "sigposix" and which == "spec" and isinstance(g.get("value"), list) and g["value"][0] == "exc":
             g = {"kind": "value", "value": ["exc", {k: v for k, v in g["value"][1].items() if k != "gone"}]}
         if c["fn"] == "sigwin" and isinstance(want, dict) and "o" in want and isinstance(g, dict) and "o" in g:
@@ -1547,7 +1654,11 @@ def correspond(ctx, res):
                 "1314, 299, 87} on Windows) × pid state ∈ {gone, zombie — once per native status code the identity's "
                 "PROC_STATUSES maps to STATUS_ZOMBIE —, alive} (× pid 0 listed or not); two-fault "
                 "sequences: every single-fault case after which the method still returned × every later native call of "
-                "that run × every swept error (quick: all of Solaris + a sample of 1200 of Windows; thorough: all); plus tuple "
+                "that run × every swept error (quick: all of Solaris + a sample of 1200 of Windows; thorough: all); empty "
+                "native answers: every native call of a no-fault run that is a question about the process and answers a list / "
+                "dict / str, handed back EMPTY × (when the call sequence then differs from the plain one) every call of that "
+                "run × every swept error × pid state, plus random subsets of empty answers with a random fault; "
+                "os.path.exists/isfile/islink are fault points (the stat inside fails, the question answers False); plus tuple "
                 "contents of every method incl. every fall-back path, the front end's platform-conditional branches "
                 "(ppid/name caching, username, pid_exists(0), cpu_affinity([]), disk_io_counters), net_if_addrs "
                 "post-processing (all MAC lengths, all prefix lengths), "
@@ -1569,6 +1680,8 @@ def correspond(ctx, res):
                 res.count("platform:" + ident)
                 if c.get("probe_eperm") is not None:
                     res.count("family:probe-kill-eperm")
+                if c["call"] in E.PATH_PROBES:
+                    res.count("family:path-question-faulted")
                 res.count("errno:" + c["errno"])
                 res.count("state:" + c["state"])
                 if c["pid"] == 0:
@@ -1613,6 +1726,36 @@ def correspond(ctx, res):
                 judge_fault(c, impl, m, res)
     res.extra["two_fault_cases"] = total_two
     res.extra["two_fault_domain"] = domain_two
+    # ---------------- empty native answers (the call succeeds, finds nothing), then a fault on THAT run's path
+    total_empty = 0
+    for ident in E.IDENTS:
+        emu = emus[ident]
+        ecs = list(empty_answer_cases(emu, ctx.tier, ctx.rng, ctx.n(60, 600)))
+        res.extra.setdefault("empty_answer_rows", {})[ident] = len(empty_rows(emu, PIDS if ctx.tier == "quick" else PIDS + [1, 2, 4]))
+        runs = [c for c in ecs if c["kind"] == "emptyrun"]
+        for c in runs:
+            total_empty += 1
+            res.count("family:empty-answer")
+            res.count("empty-answer:structured(no fault)")
+            res.case(("emptyrun", ident, c["meth"], c["pid"], tuple(c["empty"])), nontrivial=True)
+            judge_emptyrun(emu, c, run_emptyrun(emu, c), res)
+        fcs = [c for c in ecs if c["kind"] == "fault"]
+        impls = [run_fault(emu, c) for c in fcs]
+        outs = ctx.driver().batch([fault_line(c) for c in fcs]) if fcs else []
+        drv_lines += len(fcs)
+        for c, impl, m in zip(fcs, impls, outs):
+            total_empty += 1
+            res.count("family:empty-answer")
+            res.count("empty-answer:" + c["part"])
+            res.count("empty-answer:" + ident)
+            res.count("empty-answer-impl:" + impl.get("k", "?"))
+            if c["call"] in E.PATH_PROBES:
+                res.count("family:path-question-faulted")
+            samp = {"case": c, "impl": impl, "model": m.get("model")} \
+                if (ident, c["meth"], c["call"], c["errno"], c["state"], c["pid"]) == ("aix", "threads", "os.stat", "EACCES", "alive", 42) else None
+            res.case(tuple(sorted((k, str(v)) for k, v in c.items())), nontrivial=True, sample=samp)
+            judge_fault(c, impl, m, res)
+    res.extra["empty_answer_cases"] = total_empty
     # ---------------- values
     for ident in E.IDENTS:
         emu = emus[ident]
@@ -1720,8 +1863,14 @@ def _rerun(ctx, inp, res):
     emus = _emus(ctx.snap)
     emu = emus[inp["ident"]]
     kind = inp.get("kind")
+    if kind == "emptyrun":
+        return judge_emptyrun(emu, inp, run_emptyrun(emu, inp), res)
     if kind in ("fault", "fault2"):
         impl = run_fault(emu, inp)
+        if impl.get("k") == "trace-drift":
+            # the tree under replay does not make that native call at that point (a replay written on another tree):
+            # the input does not exist here, nothing to reproduce
+            return False
         m = ctx.driver().batch([fault_line(inp)])[0]
         return judge_fault(inp, impl, m, res) and res.disagreements[-1]["kind"] == "spec"
     if kind == "value":
